@@ -437,6 +437,14 @@ func Test38UnhashableKey(t *testing.T) {
 	v.Set("k", []int{1})
 	wantErr(t, one("\n{{ m[k] }}", v, nil), `"/t.jet":2`)
 	wantOut(t, one(`{{ m["a"] }}|{{ isset(m[k]) }}`, v, nil), "x|false")
+	v.Set("k2", struct {
+		Kind string
+		ID   interface{}
+	}{"a", []int{7}})
+	wantErr(t, one("\n{{ m[k2] }}", v, nil), `"/t.jet":2`)
+	v.Set("mp", map[[2]interface{}]string{{"a", 1}: "x"})
+	v.Set("kp", [2]interface{}{"a", map[string]int{"z": 1}})
+	wantErr(t, one("\n{{ mp[kp] }}", v, nil), `"/t.jet":2`)
 }
 
 func Test39PipedIntoVariadicOnly(t *testing.T) {
@@ -462,4 +470,17 @@ func Test40StrayAmpersand(t *testing.T) {
 	v := jet.VarMap{}
 	v.Set("a", true).Set("b", false)
 	wantOut(t, one("{{ a && b }}|{{ a&&b }}", v, nil), "false|false")
+}
+
+type w41 struct {
+	Err  error
+	Str  fmt.Stringer
+	Any  interface{}
+	Real error
+}
+
+func Test41NilErrorField(t *testing.T) {
+	v := jet.VarMap{}
+	v.Set("r", w41{Real: fmt.Errorf("boom")})
+	wantOut(t, one("[{{ r.Err }}][{{ r.Str }}][{{ r.Any }}][{{ r.Real }}][{{ r.Err | raw }}][{{ isset(r.Err) }}]", v, nil), "[<nil>][<nil>][<nil>][boom][<nil>][false]")
 }
